@@ -118,7 +118,7 @@ func (a *Act) execBlock(b *ssa.BasicBlock, ctx *blockCtx) {
 		case *ssa.MakeMap:
 			m := x.Type().Underlying().(*types.Map)
 			hv, k, vs := g.w.mapHeap(m)
-			r := a.freshRef("map")
+			r := a.freshRef(ctx, "map")
 			ctx.st[hv] = "(store " + g.stateGet(ctx.st, hv) + " " + r + " (mk_map ((as const (Array " + k + " Bool)) false) ((as const (Array " + k + " " + vs + ")) " + g.w.zeroSort(vs) + ")))"
 			a.set(x, Val{T: r, S: "Ref", G: x.Type()})
 		case *ssa.MapUpdate:
@@ -139,7 +139,7 @@ func (a *Act) execBlock(b *ssa.BasicBlock, ctx *blockCtx) {
 			e := slcElem(s)
 			a.set(x, Val{T: "(mk_slc ((as const (Array Int " + e + ")) " + g.w.zeroSort(e) + ") " + lv.T + ")", S: s, G: x.Type()})
 		case *ssa.MakeChan:
-			a.set(x, Val{T: a.freshRef("chan"), S: "Ref", G: x.Type()})
+			a.set(x, Val{T: a.freshRef(ctx, "chan"), S: "Ref", G: x.Type()})
 		case *ssa.MakeClosure:
 			fn := x.Fn.(*ssa.Function)
 			id := g.fresh("closure_"+shortName(funcKey(fn)), "Int")
@@ -175,7 +175,7 @@ func (a *Act) execBlock(b *ssa.BasicBlock, ctx *blockCtx) {
 				a.callWithArgs(ctx, d.call, d.args, d.fnv, nil, b, idx, d.pos)
 			}
 		case *ssa.Go:
-			g.problem("%s: go statement at %s is outside the verified subset", a.key, g.pos(x.Pos()))
+			a.spawn(ctx, x)
 		case *ssa.Select:
 			g.problem("%s: select at %s is outside the verified subset", a.key, g.pos(x.Pos()))
 		case *ssa.Panic:
@@ -223,21 +223,19 @@ func (a *Act) addEdge(from, to *ssa.BasicBlock, cond string, st State) {
 	a.edges[[2]int{from.Index, to.Index}] = edge{cond: c, st: st.clone()}
 }
 
-func (a *Act) freshRef(tag string) string {
+func (a *Act) freshRef(ctx *blockCtx, tag string) string {
 	g := a.g
+	g.w.heapVars["$wm"] = "Int"
 	r := g.fresh("ref_"+tag, "Ref")
-	parts := []string{"(> " + r + " 0)"}
-	for _, o := range g.refs {
-		parts = append(parts, not("(= "+r+" "+o+")"))
-	}
-	g.fact(and(parts...))
+	g.fact("(= " + r + " (+ " + g.stateGet(ctx.st, "$wm") + " 1))")
+	ctx.st["$wm"] = r
 	g.refs = append(g.refs, r)
 	return r
 }
 
 func (a *Act) alloc(ctx *blockCtx, elem types.Type, tag string) Val {
 	g := a.g
-	r := a.freshRef(tag)
+	r := a.freshRef(ctx, tag)
 	pt := types.NewPointer(elem)
 	if nt, ok := types.Unalias(elem).(*types.Named); ok {
 		if st, ok := nt.Underlying().(*types.Struct); ok {
@@ -245,6 +243,16 @@ func (a *Act) alloc(ctx *blockCtx, elem types.Type, tag string) Val {
 			for i := 0; i < st.NumFields(); i++ {
 				hv, s := g.w.fieldHeap(key, st, i)
 				ctx.st[hv] = "(store " + g.stateGet(ctx.st, hv) + " " + r + " " + g.w.zeroSort(s) + ")"
+			}
+			for gk, gf := range g.w.ghostFields {
+				if gf.TypeKey == key {
+					_ = gk
+					hv, err := g.fieldHeapByName(nt, gf.Name)
+					if err == nil {
+						_, es := splitArraySort(g.w.heapVars[hv])
+						ctx.st[hv] = "(store " + g.stateGet(ctx.st, hv) + " " + r + " " + g.w.zeroSort(es) + ")"
+					}
+				}
 			}
 			return Val{T: r, S: "Ref", G: pt}
 		}
@@ -777,4 +785,31 @@ func (a *Act) rangeNext(ctx *blockCtx, x *ssa.Next) {
 	ctx.st[it.seen] = "(ite " + ok + " (store " + seen + " " + k + " true) " + seen + ")"
 	a.tuples[x] = []Val{boolT(ok), {T: k, S: ks, G: it.mt.Key()}, {T: val, S: vs, G: it.mt.Elem()}}
 	a.set(x, Val{T: "$tuple", S: "Tuple"})
+}
+
+// spawn: `go f(args)` with a contracted f: the spawner must establish f's
+// precondition; nothing is assumed about f's effects (it runs concurrently).
+func (a *Act) spawn(ctx *blockCtx, x *ssa.Go) {
+	g := a.g
+	callee := x.Call.StaticCallee()
+	if callee == nil || x.Call.IsInvoke() {
+		g.problem("%s: go statement with dynamic callee at %s is outside the verified subset", a.key, g.pos(x.Pos()))
+		return
+	}
+	key := funcKey(callee)
+	spec := g.w.effectiveSpec(key)
+	if spec == nil {
+		g.problem("%s: go statement spawning uncontracted %s at %s", a.key, key, g.pos(x.Pos()))
+		return
+	}
+	vars := map[string]Val{}
+	for i, p := range callee.Params {
+		vars[p.Name()] = a.val(x.Call.Args[i])
+	}
+	env := &Env{g: g, vars: vars, st: ctx.st, old: ctx.st, pkg: spec.Pkg}
+	for k, c := range spec.Requires {
+		t := a.trClauseEnv(env, c, "requires of spawned "+key)
+		g.oblige("pre", fmt.Sprintf("%s/go:%s/pre%d%s", a.key, shortName(key), k, labelSuffix(c)), ctx.reach, t, c.Src, g.pos(x.Pos()), a.callProps(c, spec))
+	}
+	g.usedAssumed["go statement: "+key+" runs concurrently; only its precondition is checked at the spawn point (sequentialisation trusted)"] = true
 }
